@@ -68,6 +68,7 @@ def listed (e ae : Bytes) : Bool :=
 structure Obs where
   status : Nat
   hdrs : Hdrs
+  trailers : Hdrs := []       -- header fields received after the body
   decoded : Option Bytes
   deriving Repr
 
@@ -75,6 +76,7 @@ def strip3 (h : Hdrs) : Hdrs := hdel (hdel (hdel h kCE) kCL) kVary
 
 def transparentObs (plain w : Obs) : Bool :=
   w.status == plain.status && heq (strip3 w.hdrs) (strip3 plain.hdrs) &&
+    heq (strip3 w.trailers) (strip3 plain.trailers) &&
     w.decoded.isSome && w.decoded == plain.decoded
 
 /-- the encoding clause: the middleware's Content-Encoding is one the client lists -/
@@ -106,7 +108,20 @@ def writeContract : List Nat → List OutObs → Bool
   | [], _ :: _ => false
   | l :: ls, o :: os => outOK l o && writeContract ls os
 
-/-! ### exclusion class of the one open finding (K15m) -/
+/-! ### exclusion classes of the open findings (K15m, K15p) -/
+
+def isPrefixTrailerSet : Op → Bool
+  | .setH k _ => startsWith trailerPrefix k
+  | _ => false
+def isTrailerAnnounce : Op → Bool
+  | .setH k _ => k == kTrailer
+  | _ => false
+
+/-- the handler sends a trailer through `http.TrailerPrefix` without ever announcing a `Trailer`:
+    whether net/http can deliver it depends on the size of the body on the wire -/
+def prefixTrailerUnannounced (ops : List Op) : Bool :=
+  ops.any isPrefixTrailerSet && !ops.any isTrailerAnnounce
+
 
 def isPanicOp : Op → Bool
   | .panic => true
